@@ -98,6 +98,7 @@ def run_case(case):
             if "rid" not in ocols:
                 ocols.append("rid")
             try:
+                P.judgeable(prog, flat)
                 verdicts = P.eval_rows(P.adapt_program(prog, f32, ocat), cols, n)
             except P.Unorderable:
                 counters["unorderable"] = counters.get("unorderable", 0) + 1
